@@ -63,7 +63,8 @@ _flat_pat = st.one_of(
 
 def flat_cases(tier):
     return st.fixed_dictionaries({'flat': st.just(True), 'code': st.lists(_flat_stmt, min_size=3, max_size=7).map(lambda l: '\n'.join(l) + '\n'),
-                                  'pattern': st.lists(_flat_pat, min_size=2, max_size=4).map('\n'.join)})
+                                  'pattern': st.lists(_flat_pat, min_size=2, max_size=4).map('\n'.join)},
+                                 optional={'continue': st.sampled_from(['_x_ + _y_', '_x_ + 1', '_y_ + _x_', '_z_ = _x_ + _y_', 'print(_x_)', '_x_ + ___', '_f_()'])})
 
 
 def _node_embeds(p, s, binding):
@@ -377,6 +378,34 @@ def judge_flat(case):
         check_match(m, viol, desc)
         if len(viol) > before:
             break
+    # continuing from a match (use_previous): what was bound before stays bound to the same identifier
+    cont = case.get('continue')
+    if cont and matches and not viol:
+        classes.append('continued-match')
+        base = matches[0]
+        bound = {}
+        for key, lst in list(base.symbol_table.items()) + list(base.func_table.items()):
+            try:
+                bound[key] = {sym.id for sym in lst}
+            except Exception:
+                pass
+        try:
+            more = find_matches(cont, code, use_previous=base)
+        except BaseException as e:
+            more = []
+            viol.append(V('C10|continued|raises:%s' % type(e).__name__, 'find_matches(%r, use_previous=match of %r) raised %r' % (cont, pattern, e)))
+        for r in more[:10]:
+            for key, lst in list(r.symbol_table.items()) + list(r.func_table.items()):
+                try:
+                    ids = {sym.id for sym in lst}
+                except Exception:
+                    continue
+                if len(ids | bound.get(key, set())) > 1:
+                    viol.append(V('C10|continued|var-inconsistent', 'continuing %r from a match of %r in %r: %s is bound to %r (earlier match: %r)'
+                                  % (cont, pattern, code, key, sorted(ids), sorted(bound.get(key, set())))))
+                    break
+            if viol:
+                break
     MAIN_REPORT.full_clear()
     return Result(viol[:2], bool(matches) or exists is False, classes)
 
